@@ -195,6 +195,18 @@ func runC08(c *harness.Ctx, idx int) {
 			fresh = append(fresh, newC08Item(r, s))
 		}
 	}
+	// invalid definitions whose failure sits behind already linked nested types:
+	// their rejection (and its cleanup) runs concurrently with the valid first uses
+	var invalid []reflect.Type
+	for i := 0; i < 6; i++ {
+		ic := &invalidClasses[r.Intn(len(invalidClasses))]
+		if ic.lenient {
+			continue
+		}
+		bad, sib1, sib2 := buildInvalid(r, ic, c13Positions[1+r.Intn(len(c13Positions)-1)])
+		invalid = append(invalid, bad)
+		fresh = append(fresh, newC08Item(r, sib1), newC08Item(r, sib2))
+	}
 	// descriptor-slot collisions (both T and *T get a slot)
 	collisions := 0
 	c08BucketMu.Lock()
@@ -279,6 +291,27 @@ func runC08(c *harness.Ctx, idx int) {
 				// and again, through another entry point
 				if m := it.use(op + 1 + gr.Intn(3)); m != "" {
 					note("second use of fresh type %s by goroutine %d: %s", it.s.Describe(), g, m)
+				}
+				completed.Add(1)
+			}
+		}()
+	}
+	for _, bt := range invalid {
+		bt := bt
+		gr := r.Split()
+		spin := gr.Intn(50)
+		first.Add(1)
+		all.Add(1)
+		go func() {
+			defer all.Done()
+			defer first.Done()
+			<-start
+			for t0 := time.Now(); time.Since(t0) < time.Duration(spin)*time.Microsecond; {
+			}
+			for k := 0; k < 3; k++ {
+				e := []string{"encode", "decode", "size"}[gr.Intn(3)]
+				if sig, msg := checkRejected(e, bt, false); sig != "" {
+					note("invalid definition used concurrently (%s): %s: %s", e, sig, msg)
 				}
 				completed.Add(1)
 			}
